@@ -200,11 +200,54 @@ class SpecEnv:
     _in_old = 0
 
     def _old(self, f: Callable[[], Any]) -> Any:
+        """old(e): e evaluated in the pre-state.  The result is a *value*:
+        references in it denote the same objects afterwards, so a field read
+        outside old() sees the post-state (as in the SMT encoding)."""
         self._in_old += 1
         try:
-            return f()
+            v = f()
         finally:
             self._in_old -= 1
+        if self._in_old == 0:
+            v = self._to_post(v, 0)
+        return v
+
+    def _to_post(self, v: Any, depth: int) -> Any:
+        if self.snap is None or depth > 4:
+            return v
+        if not hasattr(self.snap, 'back'):
+            self.snap.back = {
+                id(c): self._orig_of(k) for k, c in self.snap.memo.items()
+                if self._orig_of(k) is not None
+            }
+        if _is_heap_obj(v) or hasattr(v, 'closed'):
+            return self.snap.back.get(id(v), v)
+        if isinstance(v, list):
+            return [self._to_post(x, depth + 1) for x in v]
+        if isinstance(v, tuple) and type(v) is tuple:
+            return tuple(self._to_post(x, depth + 1) for x in v)
+        return v
+
+    def _orig_of(self, key: int) -> Any:
+        if not hasattr(self.snap, 'by_id'):
+            by: dict[int, Any] = {}
+            stack = list(self.snap.keep)
+            seen: set[int] = set()
+            while stack:
+                o = stack.pop()
+                if id(o) in seen:
+                    continue
+                seen.add(id(o))
+                by[id(o)] = o
+                if isinstance(o, dict):
+                    stack.extend(o.keys())
+                    stack.extend(o.values())
+                elif isinstance(o, (list, tuple, set, frozenset)):
+                    stack.extend(o)
+                elif hasattr(o, '__dict__'):
+                    stack.extend(vars(o).values())
+            self.snap.by_id = by
+        return self.snap.by_id.get(key)
 
     def _eval(self, text: str, env: dict[str, Any]) -> Any:
         code = self._compile(text)
